@@ -110,3 +110,33 @@ for _n in (1, 2, 4):
              dict(self=_T3(), service_list=Fixed([_SC()]), block_list=Fixed([_BC() for _ in range(_n)])),
              name='C20/tt3.read_without_encryption[%d]' % _n,
              ensures=[('O-read.size', 'len(result) == 16 * %d' % _n)], raises={_T3E: []})
+
+# ---------------------------------------------------------------- FeliCa Lite / Lite-S protect(password)
+# "protect(password) followed by authenticate with the same password succeeds": when protect() reports success for
+# a password (the empty password stands for the factory key of sixteen zero octets) the card key block holds the
+# key authenticate(password) derives - so authenticate(password) succeeds and, the MAC being ideal, no other does.
+# password None leaves the key alone.  Lite-S passwords are text: checked for the empty one and None.
+contract(FS + 'FelicaLite.write_without_mac', 'C20', dict(self=Any(), data=Any(), block=Any()),
+         name='C20/felica.key.write', assumed=True, note='the tag (environment model) stores the block',
+         raises={}, returns='self.model.write(data, block)')
+contract(FS + 'FelicaLite.read_without_mac', 'C20', dict(self=Any(), blocks=Any()),
+         name='C20/felica.key.read', assumed=True, note='the tag (environment model) answers system block reads',
+         raises={}, returns='self.model.read(blocks)')
+contract(FS + 'FelicaLiteS.authenticate', 'C20', dict(self=Any(), password=Any()),
+         name='C20/felica.key.authenticate', assumed=True,
+         note='authenticate() with the key just written: succeeds or not (C20/FelicaLite._authenticate)',
+         raises={}, returns=Bool())
+KT = lambda: Obj('models.tag_models:FelicaKeyTag', _partial=False, ck=Bytes(16, 16), mc=Bytes(16, 16),   # noqa
+                 ckv=Bytes(16, 16), key_writes=0)
+KUSE = ['C20/felica.key.write', 'C20/felica.key.read', 'C20/felica.key.authenticate']
+for _cls, _pw in (('FelicaLite', OneOf(Bytes(16, 20), Const(b''), Const(None))),
+                  ('FelicaLiteS', OneOf(Const(''), Const(None)))):
+    contract(FS + _cls + '._protect', 'C20',
+             dict(self=Obj(FS + _cls, _partial=False, model=KT(), _authenticated=Bool(), _sk=None, _iv=None),
+                  password=_pw, read_protect=Bool(), protect_from=Int(1, 20)),
+             name='C20/%s._protect' % _cls, use=KUSE,
+             ensures=[('O-protect.key', 'implies(result == True and password is not None, '
+                                        'self.model.ck == felica_key(b"" if password == "" else password) and '
+                                        'self.model.key_writes == 1)'),
+                      ('O-protect.no-key', 'implies(password is None, self.model.ck == old(self.model.ck))')],
+             raises={})
